@@ -146,3 +146,44 @@ def rule_py_available_bytes_come_from_the_stream(out, pyr):
                               "and every refill starts from the beginning of the data again" % ast.unparse(st)[:100])
     if n == 0:
         out.undecided(rid, "anchor/assignments", rel, "no assignment to _last_read_count / _buffer found")
+
+
+def rule_py_serializers_keep_no_per_value_state(out, pyr):
+    rid = "PM3"
+    out.rule(rid, "_binary.py, _ndjson.py: a *Serializer / *Converter object serves many values; outside __init__ no method stores on `self` anything computed from one of its arguments "
+                  "(a decision cached from the first value — e.g. `value.flags.c_contiguous` — is applied to the following ones)", 20)
+    for fname in ("_binary.py", "_ndjson.py"):
+        tree, rel = pyr.parse_py(out, fname)
+        for cname, cls in pyr.classes(tree).items():
+            if "Serializer" not in cname and "Converter" not in cname:
+                continue
+            bad = None
+            for mname, fn in pyr.methods(cls).items():
+                if mname == "__init__":
+                    continue
+                params = {a.arg for a in fn.args.args + fn.args.kwonlyargs if a.arg != "self"}
+                # locals derived from parameters
+                derived = set(params)
+                changed = True
+                while changed:
+                    changed = False
+                    for st in ast.walk(fn):
+                        if isinstance(st, ast.Assign) and any(isinstance(n, ast.Name) and n.id in derived for n in ast.walk(st.value)):
+                            for t in st.targets:
+                                for n in ast.walk(t):
+                                    if isinstance(n, ast.Name) and n.id not in derived:
+                                        derived.add(n.id)
+                                        changed = True
+                for st in ast.walk(fn):
+                    targets, value = [], None
+                    if isinstance(st, ast.Assign):
+                        targets, value = st.targets, st.value
+                    elif isinstance(st, (ast.AugAssign, ast.AnnAssign)) and st.value is not None:
+                        targets, value = [st.target], st.value
+                    for t in targets:
+                        if isinstance(t, ast.Attribute) and isinstance(t.value, ast.Name) and t.value.id == "self":
+                            if any(isinstance(n, ast.Name) and n.id in derived for n in ast.walk(value)):
+                                bad = (mname, st)
+            out.check(bad is None, rid, "%s/%s" % (fname, cname), pyr.pos(rel, bad[1] if bad else cls), "no per-value state outside __init__",
+                      "%s.%s stores `%s` on the serializer: it is computed from the value at hand and then applied to every later value this object handles (the items of one write call / one batch), "
+                      "so what happens to a value depends on the value that came before it" % (cname, bad[0] if bad else "", ast.unparse(bad[1])[:110] if bad else ""))
